@@ -13,6 +13,8 @@
 //!    decisions, measured probabilities (bisected on a subset of the steps), after-states and counters
 //!    are compared with the model, on ladders of 2..8 replicas with β / Hamiltonian / mixed ladders,
 //!    RVB, heat-bath and longitudinal fields.
+//!  * parladder: mixed ladders of 2..11 replicas, serial driver vs rayon driver inside explicit k-worker pools; every exchange
+//!    decision of both drivers is judged against the exact ratio recomputed from the two operator strings and the pair's own uniform.
 //! Oracle: model-independent (real code vs real code, and the f64 Metropolis ratio from `get_pth`).
 
 #[path = "c10.rs"]
